@@ -199,7 +199,28 @@ fn rename(cond: &str, to: &[&str; 3]) -> String {
 
 /// texts[0] = condition over identifiers A, B, C (and cast atoms).
 pub fn judge(case: &Case) -> Outcome {
+    if case.kind == "c05.reference" {
+        // whole rules (several predicates on one field, case twins) whose condition is a chain or
+        // a random tree: reference semantics, and the optimised rule against the rule as loaded
+        return match c02::eval_case(case) {
+            Ok(r) => Outcome::Pass {
+                nontrivial: if r.iter().any(|x| x.0 == crate::engine::Tri::T) && r.iter().any(|x| x.0 != crate::engine::Tri::T) {
+                    Some(hash_str(&case.rules[0]))
+                } else {
+                    None
+                },
+                evaluations: 6 * case.docs.len() as u64,
+                labels: vec!["whole_rule_reference"],
+            },
+            Err(o) => o,
+        };
+    }
     let cond = &case.texts[0];
+    // what a condition means must not depend on what the process tried to load before: a load
+    // that fails part-way through its condition precedes every case
+    for broken in ["A and int(n1) > - 1", "int(n1) == -", "A and flt(n1) < -.", "of(A, -"] {
+        let _ = engine::load_text(&rule_text(&PLAIN, broken));
+    }
     let docs = if case.docs.is_empty() { assignment_docs() } else { case.docs.clone() };
     let tree = match reference::parse_condition_tree(cond) {
         Ok(t) => t,
@@ -451,6 +472,48 @@ pub fn run(tier: &str, seed: u64) -> i32 {
     for s in subs {
         report.merge(s);
     }
+    // whole rules with case twins and with several predicates on one field
+    {
+        let twins = gen::twin_rules();
+        let subs: Vec<Report> = par_run(|w, n| {
+            let mut sub = report.sub();
+            for (i, (a, b, docs)) in twins.iter().enumerate() {
+                if i % n != w {
+                    continue;
+                }
+                for text in [a, b] {
+                    let cond = text.lines().find(|l| l.starts_with("  condition:")).unwrap_or("").trim_start_matches("  condition: ").to_string();
+                    let mut c = Case::new("c05.reference");
+                    c.rules = vec![text.clone(), text.replace(&format!("  condition: {cond}\n"), &format!("  condition: not ({cond})\n"))];
+                    c.docs = docs.clone();
+                    let out = judge(&c);
+                    sub.label("case_twin_rule");
+                    sub.record(&c, out);
+                }
+            }
+            sub
+        });
+        for s in subs {
+            report.merge(s);
+        }
+    }
+    gen::drive(
+        &mut report,
+        41,
+        if tier == "thorough" { 60_000 } else { 2_000 },
+        gen::rule_same_field_focus,
+        |rule: &crate::spec::RuleSpec| {
+            if !rule.well_formed() {
+                return vec![];
+            }
+            let mut c = Case::new("c05.reference");
+            c.rules = vec![rule.text(), rule.negated_text()];
+            c.docs = gen::same_field_docs_for(rule, "f1");
+            vec![c]
+        },
+        judge,
+        |_, rep| rep.label("same_field_rule"),
+    );
     // sampled larger conditions with every atom kind
     let n = if tier == "thorough" { 200_000 } else { 6_000 };
     let names: Vec<String> = PLAIN.iter().map(|s| s.to_string()).collect();
